@@ -23,7 +23,7 @@ class Unextractable(Exception):
 
 
 PYOPS = ["Add", "Sub", "Mult", "Div", "FloorDiv", "Mod", "Pow", "LShift", "RShift", "BitOr", "BitXor", "BitAnd", "MatMult",
-         "Eq", "NotEq", "Lt", "LtE", "Gt", "GtE", "Is", "IsNot", "In", "NotIn", "And", "Or"]
+         "Eq", "NotEq", "Lt", "LtE", "Gt", "GtE", "Is", "IsNot", "In", "NotIn", "And", "Or", "AndBool", "OrBool"]
 
 HEADER = """(* GENERATED on every run by tools/regen_c19.py from spsdk/sbfile/sb2/{sly_bd_lexer,sly_bd_parser,sb_21_helper}.py
    -- do not edit.  Tables only; the semantics of the table entries is in Model/BdModel.v. *)
@@ -152,6 +152,10 @@ def binary_chain(fn, nt):
                 op, l, r = type(v.ops[0]).__name__, v.left, v.comparators[0]
             elif isinstance(v, ast.BoolOp) and len(v.values) == 2:
                 op, l, r = type(v.op).__name__, v.values[0], v.values[1]
+            elif (isinstance(v, ast.Call) and isinstance(v.func, ast.Name) and v.func.id == "bool" and len(v.args) == 1 and not v.keywords
+                  and isinstance(v.args[0], ast.BoolOp) and len(v.args[0].values) == 2):
+                # bool(a and b): the truth value instead of one of the operands
+                op, l, r = type(v.args[0].op).__name__ + "Bool", v.args[0].values[0], v.args[0].values[1]
             else:
                 raise Unextractable(f"{nt}: branch {text!r} does not return a binary operation")
             if op not in PYOPS:
@@ -259,7 +263,36 @@ def read_parser(path):
     if not (len(nb) == 1 and isinstance(nb[0], ast.Return) and isinstance(nb[0].value, ast.UnaryOp)
             and isinstance(nb[0].value.op, ast.Not) and is_tok_attr(nb[0].value.operand, "bool_expr")):
         raise Unextractable("LNOT action is not `return not token.bool_expr`")
-    return prec, prods, expr_rows, sizes, bool_rows, unary_rows, e_prods, b_prods, u_prods
+    # `DEFINED LPAREN IDENT RPAREN`:  return token.IDENT in self._variables      (a str among Variable objects: never true)
+    #                           or:  return any(<v>.name == token.IDENT for <v> in self._variables)
+    d_fn, _ = action("bool_expr", "DEFINED LPAREN IDENT RPAREN")
+    db = body_nodoc(d_fn)
+    if not (len(db) == 1 and isinstance(db[0], ast.Return)):
+        raise Unextractable("defined() action is not a single return")
+    dv = db[0].value
+
+    def is_self_variables(e):
+        return isinstance(e, ast.Attribute) and e.attr == "_variables" and isinstance(e.value, ast.Name) and e.value.id == "self"
+    if (isinstance(dv, ast.Compare) and len(dv.ops) == 1 and isinstance(dv.ops[0], ast.In) and is_tok_attr(dv.left, "IDENT")
+            and is_self_variables(dv.comparators[0])):
+        defined_by_name = False
+    elif (isinstance(dv, ast.Call) and isinstance(dv.func, ast.Name) and dv.func.id == "any" and len(dv.args) == 1
+          and isinstance(dv.args[0], ast.GeneratorExp) and len(dv.args[0].generators) == 1):
+        g = dv.args[0].generators[0]
+        elt = dv.args[0].elt
+        ok = (isinstance(g.target, ast.Name) and is_self_variables(g.iter) and not g.ifs and isinstance(elt, ast.Compare)
+              and len(elt.ops) == 1 and isinstance(elt.ops[0], ast.Eq))
+        if ok:
+            sides = [elt.left, elt.comparators[0]]
+            has_name = any(isinstance(x, ast.Attribute) and x.attr == "name" and isinstance(x.value, ast.Name) and x.value.id == g.target.id for x in sides)
+            has_ident = any(is_tok_attr(x, "IDENT") for x in sides)
+            ok = has_name and has_ident
+        if not ok:
+            raise Unextractable("defined() action: unrecognised any(...) shape")
+        defined_by_name = True
+    else:
+        raise Unextractable("defined() action shape")
+    return prec, prods, expr_rows, sizes, bool_rows, unary_rows, e_prods, b_prods, u_prods, defined_by_name
 
 
 def read_helper(path):
@@ -280,9 +313,10 @@ def extract():
     """All tables as Python data (used by the generators of tools/props/c19.py as well)."""
     base = os.path.join(vlib.REPO, "spsdk", "sbfile", "sb2")
     tok_text, reserved, pinned = read_lexer(os.path.join(base, "sly_bd_lexer.py"))
-    prec, prods, expr_rows, sizes, bool_rows, unary_rows, e_prods, b_prods, u_prods = read_parser(os.path.join(base, "sly_bd_parser.py"))
+    prec, prods, expr_rows, sizes, bool_rows, unary_rows, e_prods, b_prods, u_prods, defined_by_name = read_parser(
+        os.path.join(base, "sly_bd_parser.py"))
     cmds = read_helper(os.path.join(base, "sb_21_helper.py"))
-    return dict(tok_text=tok_text, reserved=reserved, pinned=pinned, prec=prec, prods=prods, expr_rows=expr_rows, sizes=sizes,
+    return dict(defined_by_name=defined_by_name, tok_text=tok_text, reserved=reserved, pinned=pinned, prec=prec, prods=prods, expr_rows=expr_rows, sizes=sizes,
                 bool_rows=bool_rows, unary_rows=unary_rows, e_prods=e_prods, b_prods=b_prods, u_prods=u_prods, cmds=cmds)
 
 
@@ -313,6 +347,8 @@ def regen():
     out.append("Definition size_masks : list (string * Z) :=\n  [" + "; ".join(f"({cs(c)}, {m})" for c, m in sizes) + "].\n\n")
     out.append("(* bool_expr action rows *)\n")
     out.append("Definition bool_ops : list (string * pyop * bool) :=\n  [" + ";\n   ".join(f"({cs(t)}, Py{o}, {'true' if s else 'false'})" for t, o, s in bool_rows) + "].\n\n")
+    out.append("(* `defined(IDENT)` action: true = compares the names of the variables, false = `token.IDENT in self._variables` *)\n")
+    out.append(f"Definition defined_by_name : bool := {'true' if t['defined_by_name'] else 'false'}.\n\n")
     out.append("(* unary_expr action: signs that negate (every other sign is the identity) *)\n")
     out.append("Definition unary_negating : list string := [" + "; ".join(cs(t) for t, _ in unary_rows) + "].\n\n")
 
